@@ -1,7 +1,7 @@
 (* C15 — Gas service custody: exact receipts, collector-only withdrawal, conservation.
    Statements only; proofs in Proofs/GasFacts.v.  H is an arbitrary hash function. *)
 From Coq Require Import String List NArith Lia.
-From Ax Require Import Lib.Bytes Lib.Mvx Model.Check Model.Env Model.GasService Proofs.TMFacts Proofs.GasFacts Gen.Generated.
+From Ax Require Import Lib.Bytes Lib.Mvx Model.Check Model.Env Model.GasService Proofs.TMFacts Proofs.GasFacts Proofs.GasConserve Gen.Generated.
 Import ListNotations.
 Open Scope N_scope.
 
@@ -72,6 +72,20 @@ Section C15.
     exists c a, o = GSSetCollector c a /\ (gc_caller c = gs_collector s \/ gc_caller c = gc_owner c) /\
                 gs_collector (fst (fst (gsstep H s l o))) = a.
   Proof. exact (collector_changes_only_by_collector_or_owner H). Qed.
+
+  (* conservation.  One call (any operation, any caller other than the service, not paying out to the
+     service itself): the service's balance plus what the receiver of a collection / refund gained equals
+     the old balance plus the receipt of an accepted payment *)
+  Theorem c15_conserve_step : forall g s l o tok, gs_wf g o ->
+    bal (snd (fst (gsstep H s l o))) g tok + gs_out_of H s l o tok = bal l g tok + gs_in_of H s l o tok.
+  Proof. exact (gs_conserve_step H). Qed.
+  (* every history: balance = initial balance + all receipts - all collections and refunds *)
+  Theorem c15_conservation : forall g os s l tok, Forall (gs_wf g) os ->
+    bal (snd (gsrun H s l os)) g tok + gs_outflows H s l os tok = bal l g tok + gs_receipts H s l os tok.
+  Proof. exact (gs_conservation H). Qed.
+  Theorem c15_out_needs_collector : forall g s l o tok, gs_wf g o -> 0 < gs_out_of H s l o tok ->
+    gc_caller (gsop_ctx o) = gs_collector s /\ go_ok (snd (gsstep H s l o)) = true.
+  Proof. exact (gs_out_needs_collector H). Qed.
 End C15.
 
 Print Assumptions c15_pay_event.
@@ -79,6 +93,24 @@ Print Assumptions c15_pay_ledger.
 Print Assumptions c15_collect.
 Print Assumptions c15_outflow.
 Print Assumptions c15_collector.
+Print Assumptions c15_conservation.
+Print Assumptions c15_out_needs_collector.
+
+(* non-vacuity: a user pays 10 EGLD of gas, the collector collects 4 to a third account, then refunds 5:
+   balance 1 = 0 + 10 - (4 + 5) *)
+Example c15_conservation_nonvacuous :
+  let g := be_enc 32 32 in let u := be_enc 32 7 in let col := be_enc 32 9 in let r := be_enc 32 11 in
+  let c who v := {| gc_self := g; gc_caller := who; gc_owner := col; gc_value := v |} in
+  let os := [GSPay 1 (c u {| cv_egld := 10; cv_esdt := [] |}) u (str "eth") (str "0xabc") (str "payload") u;
+             GSCollect (c col no_value) r [EGLD] [4];
+             GSRefund (c col no_value) (zeros 32) 0 u EGLD 5] in
+  let s := {| gs_collector := col |} in let l := [((u, EGLD), 100)] in
+  let H := fun b : bytes => b in
+  Forall (gs_wf g) os /\ gs_receipts H s l os EGLD = 10 /\ gs_outflows H s l os EGLD = 9 /\ bal (snd (gsrun H s l os)) g EGLD = 1.
+Proof.
+  cbv zeta. split; [|vm_compute; repeat split; reflexivity].
+  repeat constructor; cbn; try (intro E; apply (f_equal (fun b => nth 31 b Byte.x00)) in E; vm_compute in E; discriminate); discriminate.
+Qed.
 
 Example pin_gas_endpoints : gen_gas_endpoints =
   [("payGasForContractCall", "*"); ("payNativeGasForContractCall", "EGLD"); ("payGasForExpressCall", "*"); ("payNativeGasForExpressCall", "EGLD");
@@ -96,3 +128,4 @@ Example pin_gas_storage : gen_gas_storage = ["gas_collector"]%string := eq_refl.
 
 Check c15_outflow.
 Check c15_collector.
+Check c15_conservation.
